@@ -106,7 +106,8 @@ def gen_complex(tp):
 
 
 def gen_skeleton(tp):
-    m = S.gen_model(tp, "SMG", nmax=9, nmin=2, kmax=3, p_atom=230, p_bond=0)
+    m = S.gen_model(tp, "SMG", nmax=9, nmin=2, kmax=3, p_atom=230, p_bond=0,
+                    none_parity=tp.pick([0, 0, 60]))
     # a centre with two placeholders has no RDKit representation
     m.atom_stereo = {k: d for k, d in m.atom_stereo.items()
                      if list(d[1]).count(None) <= 1}
